@@ -301,7 +301,7 @@ class CallMixin:
             return ListV("opaque", path="set(%s)" % key_str(val_key(a0)), ty=ANY, is_set=True)
         if d == "builtins.filter":
             base = self.force(args[1], frame, node)
-            lo, hi, idx, elem = self.iter_family(base, frame, node)
+            lo, hi, idx, elem = self.iter_family(base, frame, node, prefix="#f")
             try:
                 pv = self.call_function(args[0], [elem], {}, frame, node)
             finally:
